@@ -45,6 +45,7 @@ def configs(ss, thorough):
     cf['sis-sir-scipy-durations'] = lambda seed: ss.Sim(n_agents=120, diseases=[ss.SIS(dur_inf=ss.weibull(c=2.0, scale=4.0), beta=0.15, init_prev=0.2), ss.SIR(dur_inf=ss.gamma(a=2.0, scale=2.0), beta=0.15, init_prev=0.1)],
                                                         networks=ss.RandomNet(n_contacts=4), dur=8, rand_seed=seed, verbose=0)
     cf['sis-treatment-queue'] = mk_queue      # a capacity-limited treatment queue (first come, first served): who is treated after a restore depends on the queue order surviving the copy
+    cf['sis-treatment-queue-b'] = mk_queue    # the same once more with another seed: whether the queue order is history-dependent varies with the run
     if thorough:
         cf['two-diseases-erdos'] = lambda seed: ss.Sim(n_agents=80, diseases=[ss.SIR(), ss.SIS(beta=0.1)], networks=ss.ErdosRenyiNet(p=0.05),
                                                        dur=5, rand_seed=seed, verbose=0, total_pop=1000)
@@ -90,6 +91,9 @@ def restore(ss, sim, mode, tmpdir):
     if mode == 'none': return sim
     if mode == 'deepcopy': return sc.dcp(sim)
     if mode == 'pickle': return pickle.loads(pickle.dumps(sim))
+    if mode == 'shrunk-aside':      # a shrunken snapshot written on the side must leave the live simulation alone
+        sim.save(os.path.join(tmpdir, 'aside.sim'), shrink=True)
+        return sim
     if mode == 'saveload':
         fn = os.path.join(tmpdir, 'sim.sim')
         sim.save(fn)
@@ -135,21 +139,32 @@ def run(ctx):
         elif ctx.thorough: ks = list(range(0, nplan + 1))
         else:
             ks = sorted(set([0, 1, nplan - 1, nplan] + [rng.randrange(2, nplan - 1) for _ in range(5)]))
-        modes = ['none', 'deepcopy', 'pickle', 'saveload']
+        modes = ['none', 'deepcopy', 'pickle', 'saveload', 'shrunk-aside']
         for k in ks:
             for mode in (modes if not ctx.thorough else modes):
-                if not ctx.thorough and mode != 'deepcopy' and rng.random() < 0.5 and k not in (0, nplan): continue
+                r_ = rng if mode != 'shrunk-aside' else __import__('random').Random(ctx.seed * 131 + k)      # the added mode draws from its own stream: the other modes keep their cases
+                if not ctx.thorough and mode != 'deepcopy' and r_.random() < 0.5 and k not in (0, nplan): continue
                 key = dict(config=name, seed=seed, boundary=k, plan_len=nplan, mode=mode)
                 try:
                     sim = mk(seed); sim.init()
                     run_to(sim, k)
                     cp = restore(ss, sim, mode, tmpdir)
-                    double = rng.random() < 0.4 and k + 2 < nplan
+                    # ordered state handed back by the restore is the state that was taken: waiting lists keep their order
+                    for iv_o, iv_c in zip(sim.interventions(), cp.interventions()):
+                        if hasattr(iv_o, 'queue') and [int(u) for u in iv_o.queue] != [int(u) for u in iv_c.queue]:
+                            ctx.violation(f'{name}: the waiting list of {iv_o.name} comes back from a {mode} restore at boundary {k} in another order '
+                                          f'({[int(u) for u in iv_o.queue][:6]} ... became {[int(u) for u in iv_c.queue][:6]} ...)', dict(key, probe='queue-order')); break
+                    double = r_.random() < 0.4 and k + 2 < nplan
                     if double:
-                        k2 = rng.randrange(k + 1, nplan)
+                        k2 = r_.randrange(k + 1, nplan)
                         run_to(cp, k2); cp = restore(ss, cp, mode, tmpdir); key['second_boundary'] = k2
                     f_copy = finish(cp)
-                    f_orig = finish(sim) if mode != 'none' else f_copy
+                    f_orig = finish(sim) if mode not in ('none', 'shrunk-aside') else f_copy
+                    if mode == 'shrunk-aside' and k == ks[-1]:
+                        # ... and so must the default save of the FINISHED run (which shrinks a copy)
+                        cp.save(os.path.join(tmpdir, 'done.sim')); f_after = fingerprint(cp)
+                        d_ = diff(f_copy, f_after)
+                        if d_: ctx.violation(f'{name}: saving the finished simulation changed the live simulation: {d_}', dict(key, probe='save-finished'))
                 except Exception as E:
                     ctx.violation(f'{name}: pausing at boundary {k} with restore mode {mode} raised {type(E).__name__}: {E}', key); continue
                 ctx.count(tuple(key.items()), nontrivial=(0 < k < nplan and mode != 'none')); ctx.dist('mode:' + mode); ctx.dist('double pause' if double else 'single pause')
